@@ -200,6 +200,14 @@ pub fn bounded(specs: &[RuleSpec], off: i64, min_days: i64, max_days: i64) {
     // (same iterator as next_change, but it cannot walk to year 9999 when nothing changes).
     let (probe, _) = collect(oh.iter_range(t, datetime(day_after(d0, max_days + 2), s0)), 4);
     let exact = if probe.len() >= 2 { Some(probe[0].end_dt) } else { None };
+    // C08 with a bound in the context: reported intervals never leave the requested window
+    let to = datetime(day_after(d0, max_days + 2), s0);
+    let to_i = instant_of(to);
+    let (clipped, _) = collect(ohb.iter_range(t, to), 8);
+    for i in &clipped {
+        vrt::check("bounds: no interval starts before the requested start (bounded context)", i.start.ge(t_i));
+        vrt::check("bounds: no interval ends after the requested end (bounded context)", i.end.le(to_i));
+    }
     let approx = ohb.next_change(t);
     vrt::note(format!("exact(within {} days) {:?} approx {:?}", max_days + 2, exact.map(|d| d.date()), approx.map(|d| d.date())));
     match (exact, approx) {
@@ -232,6 +240,10 @@ pub fn date_bounds(specs: &[RuleSpec], which: usize) {
         1 => (date(9999, 12, 30), date(10_000, 1, 2)),
         2 => (date(1700, 3, 1), date(1700, 3, 3)),
         3 => (date(12_000, 3, 1), date(12_000, 3, 3)),
+        // years congruent to 2024 modulo 2^16 (a 16-bit year conversion would wrap into the range)
+        5 => (date(2024 - 65_536, 6, 11), date(2024 - 65_536, 6, 13)),
+        6 => (date(2024 + 65_536, 6, 11), date(2024 + 65_536, 6, 13)),
+        7 => (date(2024 - 2 * 65_536, 6, 11), date(2024 - 2 * 65_536, 6, 13)),
         _ => (date(9999, 12, 31), date(9999, 12, 31)),
     };
     let from = datetime(d_from, s0);
@@ -257,7 +269,7 @@ pub fn date_bounds(specs: &[RuleSpec], which: usize) {
     // (asked only when the 8-day stream shows a change, or at/after the end of the range where the
     // answer is immediate: otherwise the evaluator walks day by day up to year 9999)
     let (probe, _) = collect(oh.iter_range(from, datetime(day_after(d_from, 8), s0)), 4);
-    if probe.len() < 2 && (which == 0 || which == 2) {
+    if probe.len() < 2 && (which == 0 || which == 2 || which == 5 || which == 7) {
         vrt::note("next_change skipped: closed on the 8-day window");
         return;
     }
@@ -266,7 +278,7 @@ pub fn date_bounds(specs: &[RuleSpec], which: usize) {
             let c_i = instant_of(c);
             vrt::check("bounds: next_change never returns an instant at or beyond 10000-01-01", c_i.lt(date_end));
             vrt::check("bounds: next_change strictly after t", from_i.lt(c_i));
-            if which == 0 || which == 2 {
+            if which == 0 || which == 2 || which == 5 || which == 7 {
                 vrt::check("bounds: from before 1900 next_change is not before 1900-01-01T00:00", from_i.lt(date_start).implies(c_i.ge(date_start)));
                 let at = sched_kind(&oh, c.date(), secs_of(c.time()));
                 vrt::check("bounds: from before 1900 the returned instant is not closed", from_i.lt(date_start).implies(at.ne(SymInt::Const(0))));
@@ -385,8 +397,35 @@ pub fn templates_point(thorough: bool) -> Vec<Template> {
     out
 }
 
+/// C04 / C16: the largest bounds a context accepts (up to TimeDelta::MAX) behave like no bound.
+pub fn huge_bound(specs: &[RuleSpec]) {
+    let (expr, _models) = build_expr(specs);
+    let oh = OpeningHours::verif_from_expression(expr, context());
+    let max_secs = i64::MAX / 1000;
+    let b = vrt::fresh_int("bound_s", max_secs - 3 * SECS, max_secs);
+    let ohb = oh.clone().with_context(context().approx_bound_interval_size(delta(b)));
+    let d0 = probe_day(0);
+    let s0 = vrt::fresh_int("t_s", 0, SECS - 1);
+    let t = datetime(d0, s0);
+    vrt::check("bound: state is unchanged", SymBool::Const(oh.state(t) == ohb.state(t)));
+    let (probe, _) = collect(oh.iter_range(t, datetime(day_after(d0, 8), s0)), 4);
+    if probe.len() >= 2 {
+        let approx = ohb.next_change(t);
+        vrt::check("bound: exact whenever the change is at most B - 24h away", SymBool::Const(approx.is_some()));
+        if let Some(a) = approx {
+            vrt::check("bound: a reported change is the exact one", instant_of(a).eq(probe[0].end));
+        }
+    }
+}
+
 pub fn templates_bounded(thorough: bool) -> Vec<Template> {
     let mut out = vec![];
+    {
+        let n = RuleOperator::Normal;
+        let sp = vec![spec(n, KindSpec::NonClosed, Sel::We, vec![SpanSpec::Free], vec![])];
+        let desc = format!("interval-size bound within 3 days of TimeDelta::MAX, next_change at 2024-06-12 + t_s of: {}", describe(&sp));
+        out.push(Template::new("huge_bound", desc, move || huge_bound(&sp)));
+    }
     let max_days = if thorough { 21 } else { 5 };
     for (id, sp) in family(thorough) {
         let sp2 = sp.clone();
@@ -408,7 +447,7 @@ pub fn templates_bounds(thorough: bool) -> Vec<Template> {
     ];
     let _ = thorough;
     for (id, sp) in exprs {
-        for which in 0..5 {
+        for which in 0..8 {
             let sp = sp.clone();
             out.push(Template::new(format!("{id}#{which}"), format!("date-range bounds window #{which} of: {}", describe(&sp)), move || date_bounds(&sp, which)));
         }
